@@ -357,7 +357,26 @@ def r5(ctx):
             if s["k"] == "assign" and s["rv"]["k"] == "agg" and s["rv"].get("adt", "").endswith("tag::Tag"):
                 aggs.append((s["rv"]["variant"], F.rd(R.positional(O.operand(s["rv"]["ops"][0], bb, j))), c.path))
     O = X.Origins(b, P)
-    anys = [cs for cs in b.calls() if cs.name == "any"]
+    # "some field carries an explicit tag": `any(|f| f.tag.is_some())`, or negated `all(|f| f.tag.is_none())`
+    anys = []
+    explicit_when = {}       # call location -> truth value of the call that means "an explicit tag exists"
+    for cs in b.calls():
+        if cs.name not in ("any", "all"):
+            continue
+        pol = None
+        for a in O.call_args(cs)[1:]:
+            if a[0] == "agg" and a[1] == "closure":
+                cb = P.bodies.get("%s::%s" % (b.crate, a[2]))
+                names = {c2.name for c2 in cb.calls()} if cb is not None else set()
+                if "is_some" in names and "is_none" not in names:
+                    pol = True
+                elif "is_none" in names and "is_some" not in names:
+                    pol = False
+        if pol is None:
+            continue
+        if (cs.name == "any") == pol:
+            anys.append(cs)
+            explicit_when[cs.loc()] = (cs.name == "any")
     enum = [cs for cs in b.calls() if cs.name == "enumerate"]
     detail = {"function": b.path, "tags_built": aggs, "any_calls": len(anys), "enumerate_calls": len(enum)}
     probs = []
@@ -369,18 +388,26 @@ def r5(ctx):
         probs.append("the `any explicit tag` test or the enumerate() is gone")
     else:
         # the automatic branch must be the one where `any` is false
-        sw = [bb for bb, t in b.switches() if "any(" in X.render(O.switch_cond(bb))]
+        sw = []
+        for bb, t in b.switches():
+            e = F.strip_casts(O.switch_cond(bb))
+            neg = False
+            while e[0] == "un" and e[1] == "Not":
+                e = F.strip_casts(e[2])
+                neg = not neg
+            if e[0] == "call" and X.last_seg(e[1] or "") in ("any", "all") and e[4] in explicit_when and len(t["vals"]) == 1:
+                sw.append((bb, t, explicit_when[e[4]] != neg))     # truth value of the switched bool that means "explicit tag exists"
         if not sw:
             probs.append("the result of any(..) does not select the branch")
         else:
-            t = b.blocks[sw[0]]["term"]
-            false_target = None
-            for v, tg in zip(t["vals"], t["targets"]):
-                if v == "0":
-                    false_target = tg
+            bb0, t, explicit_is_true = sw[0]
+            zero_t, other_t = t["targets"][0], t["otherwise"]
+            if int(t["vals"][0]) != 0:
+                zero_t, other_t = other_t, zero_t
+            auto_target, explicit_target = (zero_t, other_t) if explicit_is_true else (other_t, zero_t)
             en_bb = enum[0].bb
-            if false_target is None or en_bb not in b.reach_from(false_target) or \
-                    en_bb in b.reach_from(t["otherwise"]) and not b.dominates(false_target, en_bb):
+            if en_bb not in b.reach_from(auto_target) or \
+                    en_bb in b.reach_from(explicit_target) and not b.dominates(auto_target, en_bb):
                 probs.append("automatic tags are assigned on the branch where some field has an explicit tag")
     if probs:
         ctx.fail(rule, "assign_implicit_tags", "; ".join(probs), "%s:%d" % (b.file, b.line), detail)
